@@ -255,14 +255,17 @@ def encodedLenPacked (c : Codec) (tag : Nat) (vs : List SVal) : Nat :=
       | _ => c.payloadLenSum vs
     keyLen tag + encodedLenVarint len + len
 
+/-- the closure of the packed arm: `merge($wire_type, &mut value, buf, ctx)?; values.push(value)`. -/
+def packedStep (c : Codec) (acc : List SVal) (bs : Bytes) : Out (List SVal × Bytes) :=
+  match c.merge c.wt bs with
+  | .ok (v, r) => .ok (acc ++ [v], r)
+  | .err k => .err k | .panic s => .panic s | .fuel => .fuel
+
 /-- `merge_repeated`: numeric modules accept a packed run (`LengthDelimited`) or one unpacked
 element; length-delimited modules accept one element. -/
 def mergeRepeated (c : Codec) (wt : WireType) (acc : List SVal) (bs : Bytes) : Out (List SVal × Bytes) :=
   if c.isNumeric && wt = .len then
-    mergeLoop (fun acc bs =>
-      match c.merge c.wt bs with
-      | .ok (v, r) => .ok (acc ++ [v], r)
-      | .err k => .err k | .panic s => .panic s | .fuel => .fuel) acc bs
+    mergeLoop c.packedStep acc bs
   else
     match checkWireType c.wt wt with
     | .ok _ =>
